@@ -62,6 +62,10 @@ func vfPSMake(scn string) (func(), func(*vsched.Exec) (string, *vsched.Violation
 			sub = factory.GetTransport()
 			// the builder's factory ignores its queue settings in GetTransport: use what it returns
 			sub.(*fNatsSubscriberTransport).workerCount = uint(workers)
+			if q, err := strconv.Atoi(cfg["q"]); err == nil {
+				// a short work queue, so that a handful of messages is a burst that fills it
+				sub.(*fNatsSubscriberTransport).workC = make(chan *fakenats.Msg, q)
+			}
 			if cfg["s2"] == "1" {
 				sub2 = factory.GetTransport()
 				sub2.(*fNatsSubscriberTransport).workerCount = uint(workers)
@@ -352,6 +356,11 @@ func init() {
 				}
 			}
 			out = append(out, "t=nats,w=2,m=V.F.V,u=none,s2=1", "t=nats,w=2,m=F.V.F,u=1,s2=1")
+			// bursts against a short work queue (0 or 1 slots): more messages outstanding than the queue
+			// and the worker hold
+			for _, q := range []string{"0", "1"} {
+				out = append(out, "t=nats,w=1,q="+q+",m=V.V.V.V,u=none", "t=nats,w=1,q="+q+",m=V.V.V.V.V,u=none", "t=nats,w=1,q="+q+",m=V.M3.V.V.V,u=none")
+			}
 			// long runs of valid messages, with working and with failing acknowledgements (STOMP) and
 			// with malformed ones in between
 			long := strings.TrimSuffix(strings.Repeat("V.", 12), ".")
